@@ -810,6 +810,8 @@ class WorldImpl(World):
                     act = p.step_enabled()
                     if act is not None:
                         skip = self.choose('A', 2, (p.name, act[0])) if 'A' in self.kinds else 0
+                        if skip:
+                            self.activity += 1      # a postponed action is still pending: not quiescent
                         if not skip:
                             if act[0] == 'connect':
                                 p.connect()
@@ -822,6 +824,8 @@ class WorldImpl(World):
                             self.activity += 1
                 elif p.outbox and not p.closed:
                     skip = self.choose('A', 2, (p.name, p.outbox[0][0])) if 'A' in self.kinds else 0
+                    if skip:
+                        self.activity += 1
                     if not skip:
                         if p.do_action(p.outbox[0]):
                             p.outbox.pop(0)
